@@ -111,3 +111,13 @@
 ; natively typed slices / maps of string, bool, int, float64 hold values of that type (Go's typing)
 (assert (forall ((a Val)) (! (=> (and ((_ is VSl) a) (<= 4 (slf a)) (<= (slf a) 7)) (okNative a)) :pattern ((okNative a)))))
 (assert (forall ((a Val)) (! (=> (and ((_ is VMp) a) (<= 4 (mpf a)) (<= (mpf a) 7)) (okNative a)) :pattern ((okNative a)))))
+
+; ---------------------------------------------------------------------------
+; C13: one level of the native conversion.  nat1(mark, src, dst): dst (what native() returns for the
+; Go value src) is a native []any / map[string]any allocated at or above mark when src is a List /
+; an Object - never a container of the library -, and src itself otherwise.
+; ---------------------------------------------------------------------------
+(define-fun nat1 ((mark Int) (src Val) (dst Val)) Bool
+  (ite ((_ is VList) src) (and ((_ is VSl) dst) (= (slf dst) 1) (>= (sla dst) mark) (= (slo dst) 0))
+  (ite ((_ is VObj) src)  (and ((_ is VMp) dst) (= (mpf dst) 1) (>= (mpi dst) mark))
+       (= dst src))))
